@@ -647,6 +647,7 @@ def json_to_pagexml_table_cell(json_doc: dict) -> pdm.PageXMLTableCell:
                                       metadata=json_doc['metadata'], coords=json_to_coords(json_doc),
                                       lines=lines, orientation=orientation, cornerpoints=cornerpoints,
                                       row=get_json_element(json_doc, 'row'),
+                                      header=get_json_element(json_doc, 'header'),
                                       col=json_doc['col'], cell_span=json_doc['cell_span'],
                                       row_span=json_doc['row_span'])
     pdm.set_parentage(table_cell)
